@@ -211,6 +211,10 @@ func H_C09_roundtrip() {
 func H_C09_compressed() {
 	labels, llen := vParam("labels"), vParam("llen")
 	keep, skip := vParam("keep"), vParam("skip")
+	if skip > labels {
+		vCover("end") // the grid is a product: a pointer cannot designate a label the question name does not have
+		return
+	}
 	qn := symNameLabels("q", labels, llen)
 	own := symNameLabels("o", keep, llen)
 	var raw []byte
